@@ -21,6 +21,20 @@ exception included) and on 900 formats through `ZConfig.loadConfigFile` — no d
   `unicode_format_getnextarg` in mapping mode: the argument (initially the mapping itself, after `%(key)` the value
   found) can be consumed once.
 * resource exhaustion (`MemoryError` for astronomically large widths / precisions) is outside the model.
+* the int-to-decimal-string limit of CPython 3.12 (`sys.get_int_max_str_digits()` = 4300, task Y7): `str()`, `repr()`,
+  `ascii()` of an `int` and the conversions `%d %i %u` raise `ValueError` as soon as the number has more than 4300
+  decimal digits (`|n| ≥ 10^4300`; the sign does not count) — `strCheck`.  `%o %x %X` are not limited, `%c` and
+  `%e … %G` fail earlier with `OverflowError`.  The same limit reaches a specifier WITHOUT `(key)` that formats the
+  mapping itself (`'%s' % d` prints `repr()` of every value of `d`): `Arg.mapping`, `MappingPrints`.
+  Compared with the interpreter (Python 3.12.1, task Y7, `val/validate.py` + `val/Validate.lean` run with
+  `lake env lean --run`): two runs, 32 719 and 22 719 (format, record) pairs — the same 10 716 directed pairs (every
+  conversion character × ints of 4299, 4300, 4301 and more digits of both signs × seven specifier shapes, keyed, bare,
+  and inside an otherwise ordinary record) plus 22 003 resp. 12 003 random ones, 44 722 distinct pairs in all:
+  `formatRunTable` against `fmt % dict` (exception CLASS included), `formatSafeTable` against
+  `(fmt or '%(message)s') % dict` and against `formatMessage` of the formatter the real `FormatterFactory` returns
+  (2 124 + 1 965 pairs with an accepted format), `loadCheck` / `accepts` against the real `FormatterFactory`
+  (19 314 + 10 863 formats, class of the exception included) — no difference.  The model before this repair differs
+  from the interpreter on 2 116 of the 32 719 pairs of the first run.
 -/
 namespace ZCV.LogFormat
 
@@ -159,6 +173,20 @@ def maxUnicode : Int := 0x10FFFF
 /-- `PyLong_AsDouble` overflows from `2^1024 - 2^970` on (round-half-even to `2^1024`) -/
 def floatLimit : Int := 2 ^ 1024 - 2 ^ 970
 
+/-- `sys.get_int_max_str_digits()`, Python 3.12 default -/
+def intMaxStrDigits : Nat := 4300
+
+/-- `str(v)` (and `repr(v)`, `ascii(v)`): raises `ValueError` for an `int` of more than 4300 decimal digits — the sign
+    does not count: `str(10**4300 - 1)` and `str(-(10**4300 - 1))` work, `str(10**4300)` and `str(-10**4300)` raise
+    "Exceeds the limit (4300 digits) for integer string conversion" — and works on everything else -/
+def strCheck : Value → Except PyErr Unit
+  | .int n => if n.natAbs < 10 ^ intMaxStrDigits then .ok () else .error .valueError
+  | _ => .ok ()
+
+/-- `repr(d)` of the mapping itself works: it works on every value (the keys are strings).  This is what a specifier
+    without `(key)` prints when it comes first (`'%s' % d`). -/
+def MappingPrints (d : Dict) : Prop := ∀ k v, d k = some v → strCheck v = .ok ()
+
 /-- the families of conversion characters -/
 inductive ConvClass | text | dec | radix | real | char
   deriving DecidableEq, Repr
@@ -178,14 +206,21 @@ def precCheck (prec : Option Nat) : Except PyErr Unit :=
   | some p => if p > cIntMax - 3 then .error .overflowError else .ok ()
   | none => .ok ()
 
+/-- `_PyUnicode_FormatLong` for `d i u`: the precision is checked first ("precision too large", OverflowError), then the
+    number is converted to decimal text (`PyNumber_ToBase(val, 10)`), which is subject to the 4300-digit limit -/
+def decCheck (prec : Option Nat) (n : Int) : Except PyErr Unit :=
+  match precCheck prec with
+  | .error e => .error e
+  | .ok _ => strCheck (.int n)
+
 /-- formatting value `v` with a conversion of class `k` and precision `prec`: does it raise? -/
 def classCheck (k : ConvClass) (prec : Option Nat) (v : Value) : Except PyErr Unit :=
   match k with
-  | .text => .ok ()                                   -- str(), repr(), ascii()
+  | .text => strCheck v                               -- str(), repr(), ascii()
   | .dec =>                                           -- `PyNumber_Long` unless already an int
     match v with
-    | .int _ => precCheck prec
-    | .float .finite => precCheck prec
+    | .int n => decCheck prec n
+    | .float .finite => precCheck prec                -- `int(x)` of a float has at most 309 digits
     | .float .inf => .error .overflowError
     | .float .nan => .error .valueError
     | _ => .error .typeError
@@ -209,27 +244,45 @@ def convCheck (c : Char) (prec : Option Nat) (v : Value) : Except PyErr Unit :=
   | some k => classCheck k prec v
   | none => .error .valueError
 
+/-- what a conversion specifier formats: the value of a record attribute (`%(key)…`), or — for a specifier without
+    `(key)` that comes before every other specifier — the mapping itself; `printable` = `repr()` works on every value
+    of the mapping (`MappingPrints`) -/
+inductive Arg
+  | val (v : Value)
+  | mapping (printable : Bool)
+  deriving DecidableEq, Repr
+
+/-- the conversion applied to an argument.  The mapping is neither a number nor a `str`, so it behaves as a
+    `Value.other` (only `s r a` accept it); `str()` / `repr()` / `ascii()` of the mapping then print every value and
+    raise `ValueError` when one of them is an `int` of more than 4300 digits. -/
+def argCheck (c : Char) (prec : Option Nat) : Arg → Except PyErr Unit
+  | .val v => convCheck c prec v
+  | .mapping printable =>
+    match convCheck c prec .other with
+    | .error e => .error e
+    | .ok _ => if printable then .ok () else .error .valueError
+
 /-- `*` as width (`lo = -2^63`, `hi = 2^63-1`) or precision (C `int`): takes the pending argument, which must be an
-    `int` in range.  State: the pending argument, if not consumed yet.  Result: new state and the number. -/
-def evalStar (st : Option Value) (lo hi : Int) : Except PyErr Int :=
+    `int` in range.  State: the pending argument, if not consumed yet.  Result: the number. -/
+def evalStar (st : Option Arg) (lo hi : Int) : Except PyErr Int :=
   match st with
   | none => .error .typeError                          -- "not enough arguments for format string"
-  | some (.int n) => if lo ≤ n ∧ n ≤ hi then .ok n else .error .overflowError
+  | some (.val (.int n)) => if lo ≤ n ∧ n ≤ hi then .ok n else .error .overflowError
   | some _ => .error .typeError                        -- "* wants int"
 
-def evalWidth (st : Option Value) : Spec → Except PyErr (Option Value)
+def evalWidth (st : Option Arg) : Spec → Except PyErr (Option Arg)
   | .absent => .ok st
   | .num n => if n > ssizeMax then .error .valueError else .ok st          -- "width too big"
   | .star => (evalStar st (-(ssizeMax : Int) - 1) ssizeMax).map (fun _ => none)
 
-def evalPrec (st : Option Value) : Spec → Except PyErr (Option Value × Option Nat)
+def evalPrec (st : Option Arg) : Spec → Except PyErr (Option Arg × Option Nat)
   | .absent => .ok (st, none)
   | .num n => if n > cIntMax then .error .valueError else .ok (st, some n)  -- "precision too big"
   | .star => (evalStar st (-(cIntMax : Int) - 1) cIntMax).map (fun n => (none, some n.toNat))
 
 /-- one item.  State = the argument that the next conversion would format, `none` once it has been consumed
     (`ctx->argidx`): initially the mapping itself, replaced by the value found when the specifier has a `(key)`. -/
-def evalItem (d : Dict) (st : Option Value) : Item → Except PyErr (Option Value)
+def evalItem (d : Dict) (st : Option Arg) : Item → Except PyErr (Option Arg)
   | .lit _ => .ok st
   | .percent => .ok st
   | .badKey _ => .error .valueError
@@ -238,7 +291,7 @@ def evalItem (d : Dict) (st : Option Value) : Item → Except PyErr (Option Valu
            | none => Except.ok st
            | some k => match d k with
                        | none => Except.error PyErr.keyError
-                       | some v => Except.ok (some v)) with
+                       | some v => Except.ok (some (Arg.val v))) with
     | .error e => .error e
     | .ok st1 =>
       match evalWidth st1 w with
@@ -252,20 +305,29 @@ def evalItem (d : Dict) (st : Option Value) : Item → Except PyErr (Option Valu
           | some c =>
             match st3 with
             | none => .error .typeError                -- "not enough arguments for format string"
-            | some v =>
-              match convCheck c pv v with
+            | some a =>
+              match argCheck c pv a with
               | .error e => .error e
               | .ok _ => .ok none
 
-def runItems (d : Dict) : Option Value → List Item → Except PyErr Unit
+def runItems (d : Dict) : Option Arg → List Item → Except PyErr Unit
   | _, [] => .ok ()
   | st, it :: rest =>
     match evalItem d st it with
     | .error e => .error e
     | .ok st' => runItems d st' rest
 
-/-- `fmt % d` for a mapping `d`: `.ok ()` when a string is produced, else the class of the exception -/
-def formatRun (fmt : Str) (d : Dict) : Except PyErr Unit := runItems d (some .other) (parse fmt)
+/-- `fmt % d` for a mapping `d`, given whether `repr(d)` works (`printable`; it only matters for a specifier without
+    `(key)`): `.ok ()` when a string is produced, else the class of the exception.  Executable. -/
+def formatRunOn (printable : Bool) (fmt : Str) (d : Dict) : Except PyErr Unit :=
+  runItems d (some (.mapping printable)) (parse fmt)
+
+open Classical in
+/-- `fmt % d` for a mapping `d`: `.ok ()` when a string is produced, else the class of the exception.
+    (`Dict` is a function, so whether every value prints is not computable from it; for a mapping given as a table use
+    `formatRunTable`, which is the same thing — `LogFormatLemmas.lf_formatRun_table`.) -/
+noncomputable def formatRun (fmt : Str) (d : Dict) : Except PyErr Unit :=
+  formatRunOn (decide (MappingPrints d)) fmt d
 
 /-! ## `logging.PercentStyle.validate`
 
@@ -462,6 +524,16 @@ def lookup (tbl : List (Str × Value)) (k : Str) : Option Value := (tbl.find? (f
 
 def sampleDict : Dict := lookup sampleVars
 
+/-- `repr()` of a mapping given as a table works (the first entry of a key is the one that counts) -/
+def tablePrints (tbl : List (Str × Value)) : Bool :=
+  tbl.all (fun p => match lookup tbl p.1 with
+                    | some v => decide (strCheck v = .ok ())
+                    | none => true)
+
+/-- `fmt % d` for a mapping given as a table of its items; executable -/
+def formatRunTable (fmt : Str) (tbl : List (Str × Value)) : Except PyErr Unit :=
+  formatRunOn (tablePrints tbl) fmt (lookup tbl)
+
 /-- `PercentStyle.default_format` -/
 def defaultFormat : Str := "%(message)s".toList
 
@@ -486,7 +558,7 @@ def buildFormatter (fmt : Str) : Except PyErr Unit :=
     record, then `self()` (the formatter is built once).  `.ok ()` = the section is accepted; else the class of the
     exception (ValueError becomes a configuration error, the other classes escape from the loader as they are). -/
 def loadCheck (fmt : Str) : Except PyErr Unit :=
-  match formatRun (effective fmt) sampleDict with
+  match formatRunTable (effective fmt) sampleVars with
   | .error e => .error e
   | .ok _ => buildFormatter fmt
 
@@ -498,8 +570,14 @@ def accepts (fmt : Str) : Bool :=
 
 /-- formatting a record whose attributes are `record` with the formatter built from `fmt` does not raise
     (`logging.Formatter.formatMessage`: `fmt % record.__dict__`) -/
-def formatSafe (fmt : Str) (record : Dict) : Bool :=
+noncomputable def formatSafe (fmt : Str) (record : Dict) : Bool :=
   match formatRun (effective fmt) record with
+  | .ok _ => true
+  | .error _ => false
+
+/-- `formatSafe` for a record given as a table of its attributes; executable -/
+def formatSafeTable (fmt : Str) (tbl : List (Str × Value)) : Bool :=
+  match formatRunTable (effective fmt) tbl with
   | .ok _ => true
   | .error _ => false
 
